@@ -18,6 +18,10 @@ macro_rules! with_prop {
             "C06" => { let $p = &props::c06::C06; $body }
             "C07" => { let $p = &props::c07::C07; $body }
             "C08" => { let $p = &props::c08::C08; $body }
+            "C09" => { let $p = &props::c09::C09; $body }
+            "C10" => { let $p = &props::c10::C10; $body }
+            "C11" => { let $p = &props::c11::C11; $body }
+            "C12" => { let $p = &props::c12::C12; $body }
             _ => { eprintln!("unknown property {}", $id); std::process::exit(2); }
         }
     };
